@@ -234,7 +234,9 @@ def checkConverged (st : State) (c : Nat) (cents : List CEnt) : List Verdict :=
     let real := cents.filter fun e => !isPlaceholder e
     let v1 := real.filterMap fun ce =>
       match ce.idx.bind fun i => expected.find? (·.idx = i) with
-      | none => some (Verdict.oracle "C01" s!"after quiescence client {c} still holds entity {ce.key} that is not in the server's view for it")
+      | none =>
+        let hiddenLive := ce.idx.any fun i => s.ents.any fun e => e.idx = i && e.marked
+        some (Verdict.oracle (if hiddenLive then "C08" else "C01") s!"after quiescence client {c} still holds entity {ce.key} that is not in the server's view for it{if hiddenLive then " (it lost visibility and was never removed)" else ""}")
       | some se =>
         if ce.dead || !ce.marked then some (Verdict.oracle "C01" s!"after quiescence client {c}: entity {ce.key} dead/unmarked")
         else if compKeys ce.comps ≠ compKeys se.comps then
@@ -465,6 +467,7 @@ def handle (st : State) (inp : List String) (obs : List String) : State × List 
   | ["start"] => (if obs = ["ok"] then { st with running := true, freshStart := true } else st, [])
   | "junk" :: _ => ({ st with junkSeen := true }, [])
   | "flush" :: _ => ({ st with inFlush := true, flushRound := 0 }, [])
+  | "flushing" :: _ => ({ st with inFlush := true, flushRound := 0 }, [])
   | ["flushed"] => ({ st with inFlush := false }, [])
   | "sframe" :: rest =>
     if obs = ["skip"] then (st, []) else
